@@ -131,4 +131,6 @@ def run(ctx):
         else:
             rep.note('family %s (neither ratio nor finish): factor %s — unspecified by the property' % (lab, got.canon()))
     rep.floor('R2', 'factor formulas checked', n_formula, 2, where(bb))
-    rep.note('R3 (zero stays zero) is decided by C05.R1/R2 on the same builder/stepping-function model')
+    # ---- R3 a zero temperature stays zero (same abstract model as C05.R1/R2) ------------------------------
+    from .C05 import zero_stays_zero
+    zero_stays_zero(ctx, oa, fams, bb, kt_l, 'R3', 'R3', key_prefix='zero-stays-zero:')
